@@ -19,77 +19,152 @@
 (*                                                                         *)
 (* Branches are harness elements with tagged outputs Tag(b, kind, payload) *)
 (* so every result can be attributed:                                      *)
-(*   src        Source yielding Tag(b,"s",<<1>>), Tag(b,"s",<<2>>)         *)
+(*   src        Source yielding Tag(b,"s",<<1>>), .., Tag(b,"s",<<m>>)     *)
 (*   fc(stop)   fill/compute element: collects values, raises LenaStopFill *)
 (*              on the fill attempt number stop+1, compute yields          *)
-(*              Tag(b,"c",filled)                                          *)
+(*              Tag(b,"c",filled) (m = None) or m results                  *)
+(*              Tag(b,"c",<<i>> \o filled)                                 *)
 (*   fr(stop)   fill/request element: request yields Tag(b,"r",filled      *)
-(*              since the previous request)                                *)
+(*              since the previous request) (or m results)                 *)
 (*   map        plain callable  v -> Tag(b,"m",<<v>>)                      *)
 (*   filt       run element keeping even values                            *)
 (*   seq        run element: Tag(b,"m",<<v>>) per value and then           *)
 (*              Tag(b,"end",<<number of values in this run>>) - makes      *)
 (*              block boundaries and invocations on [] visible             *)
+(*   nest       a Split used as a branch (SplitSem.tla: ClassOf)           *)
+(* Every kind comes in several *forms* (bare element, tuple, explicit lena *)
+(* sequence object, tuple with pre- and post-processing elements, ...):    *)
+(* see SplitSem.tla.                                                       *)
+(*                                                                         *)
+(* One Split object is used more than once (mode of the scenario):         *)
+(*   "rerun"  run to the end, then run again (Rerun)                       *)
+(*   "abort"  the first run is abandoned at an arbitrary point - the       *)
+(*            consumer closes the generator or the flow raises - and the   *)
+(*            object is run again (Abort)                                  *)
+(*   "inter"  a second run of the same object is started and finished      *)
+(*            while the first one is suspended (Suspend / Resume);         *)
+(*            stateless branches only                                      *)
 (***************************************************************************)
 EXTENDS SplitSem, Json
 
-CONSTANTS MaxBr, MaxN, Kinds, BufSizes,
-          MaxRuns   \* the same Split object is run MaxRuns times over the same flow (elements reset in between)
+CONSTANTS Scenarios(_), \* Scenarios(0): set of [brs, N, bs, mode]; an operator so that TLC does not
+                        \* evaluate every (large) family below at start-up
+          MaxRuns      \* mode "rerun": the same Split object is run MaxRuns times over the same flow
 
-RECURSIVE Seqs(_)
-Seqs(n) == IF n = 0 THEN {<<>>}
-           ELSE LET P == Seqs(n - 1) IN P \cup {Append(p, a) : p \in {x \in P : Len(x) = n - 1}, a \in Kinds}
+RECURSIVE SeqsOver(_, _)
+SeqsOver(S, n) == IF n = 0 THEN {<<>>}
+                  ELSE LET P == SeqsOver(S, n - 1) IN P \cup {Append(p, a) : p \in {x \in P : Len(x) = n - 1}, a \in S}
+Sc(lists, ns, bufs, modes) == {[brs |-> l, N |-> n, bs |-> b, mode |-> m] : l \in lists, n \in ns, b \in bufs, m \in modes}
+\* lists of length <= 2 with at least one branch from New, the other from Partners
+Paired(New, Partners) == {<<>>} \cup {<<a>> : a \in New} \cup {<<a, p>> : a \in New, p \in Partners}
+                         \cup {<<p, a>> : a \in New, p \in Partners}
+
+(***************************************************************************)
+(* Scenario families (substituted for Scenarios in the .cfg files).        *)
+(***************************************************************************)
+ScQuick(u) == Sc(SeqsOver(KindsQuick, 2), 0..4, BufQuick, {"rerun"})
+ScThorough(u) == Sc(SeqsOver(KindsQuick, 3), 0..6, BufThorough, {"rerun"})
+ScThoroughExport(u) == Sc(SeqsOver(KindsSmall, 3), 0..5, BufThorough, {"rerun"})
+ScDeep(u) == Sc(SeqsOver(KindsSmall, 4), 0..5, BufQuick, {"rerun"})
+\* every mix of the four classes with up to four branches (stopping and non-stopping fill kinds)
+KindsFour == {Src, FC(1), FR(1), SeqK}
+KindsSix == {Src, FC(None), FC(1), FR(None), FR(1), SeqK}
+ScWide(u) == Sc(SeqsOver(KindsFour, 4), {0, 3}, {1, 2, None}, {"rerun"})
+ScWideThorough(u) == Sc(SeqsOver(KindsSix, 4), 0..3, {1, 2, 3, None}, {"rerun"})
+\* forms of handing a branch to Split, result multiplicities, Sources with tails
+KindsForms ==
+  {WithM(Src, 0), WithM(Src, 1), WithForm(Src, "obj"), WithForm(Src, "sub"), WithForm(Src, "fct")}
+  \cup {WithForm(FC(None), f) : f \in {"tup", "obj", "pp"}} \cup {WithForm(FC(2), "tup"), WithForm(FC(1), "obj"), WithForm(FC(1), "pp")}
+  \cup {WithForm(FC(0), "sl"), WithForm(FC(1), "sl"), WithForm(FC(2), "sl")}
+  \cup {WithM(FC(None), 0), WithM(FC(None), 2), WithM(FC(1), 2), WithM(FC(1), 0)}
+  \cup {WithForm(FR(None), f) : f \in {"tup", "obj", "pp"}} \cup {WithForm(FR(2), "tup"), WithForm(FR(1), "obj"), WithForm(FR(1), "pp")}
+  \cup {WithForm(FR(0), "sl"), WithForm(FR(1), "sl"), WithForm(FR(2), "sl")}
+  \cup {WithM(FR(None), 0), WithM(FR(None), 2), WithM(FR(1), 2), WithM(FR(1), 0)}
+  \cup {WithForm(kd, f) : kd \in {MapK, FiltK, SeqK}, f \in {"tup", "obj", "pp"}}
+  \cup {WithForm(FiltK, "attr"), WithForm(SeqK, "attr"), WithForm(SeqK, "attr2")}
+\* Splits as branches
+KindsNest ==
+  {Nest(<<FC(None), FC(None)>>, None), Nest(<<FC(None), WithM(FC(None), 2)>>, 1), Nest(<<FC(None)>>, None),
+   Nest(<<FR(None), FR(None)>>, None), Nest(<<FR(None)>>, 1),
+   Nest(<<FR(None), SeqK>>, 1), Nest(<<Src, MapK>>, None), Nest(<<Src>>, None), Nest(<<Src, Src>>, 1),
+   Nest(<<>>, None), Nest(<<SeqK, FiltK>>, 2), Nest(<<SeqK>>, 1), Nest(<<MapK, Src, SeqK>>, None)}
+KindsNew == KindsForms \cup KindsNest
+Singles(S) == {<<>>} \cup {<<a>> : a \in S}
+ScForms(u) == Sc(Singles(KindsNew), 0..3, {1, 2, None}, {"rerun"})
+           \cup Sc(Paired(KindsNew, {SeqK, FC(1)}), {0, 3}, {1, 2, None}, {"rerun"})
+ScFormsThorough(u) == Sc(Paired(KindsNew, {Src, FC(1), FR(1), SeqK, FC(None), FR(None), MapK}), 0..4, {1, 2, 3, 1000, None}, {"rerun"})
+\* the same object abandoned in the middle of a run / two runs interleaved
+KindsModes == {Src, FC(1), FR(1), SeqK}
+KindsStateless == {Src, MapK, SeqK, Nest(<<Src, SeqK>>, 1)}
+ScModes(u) == Sc(SeqsOver(KindsModes, 2), {2, 3}, {1, None}, {"abort"})
+           \cup Sc(SeqsOver(KindsStateless, 2), {2, 3}, {1, 2}, {"inter"})
+ScModesThorough(u) == Sc(SeqsOver(KindsModes \cup {FC(None), FR(None), MapK, FC(0), FR(0), FC(2), FR(2), FiltK}, 2), 0..4, {1, 2, 3, None}, {"abort"})
+                   \cup Sc(SeqsOver(KindsModes, 3), 0..4, {1, 2, None}, {"abort"})
+                   \cup Sc(SeqsOver(KindsStateless \cup {WithM(Src, 0), FiltK}, 3), 0..4, {1, 2, 3, None}, {"inter"})
+ScAudit(u) == ScWide(u) \cup ScForms(u) \cup ScModes(u)
+ScAuditThorough(u) == ScWideThorough(u) \cup ScFormsThorough(u) \cup ScModesThorough(u)
+
 (***************************************************************************)
 (* Operational machine.                                                    *)
 (***************************************************************************)
-VARIABLES brs, N, bs,         \* scenario
+VARIABLES brs, N, bs, mode,   \* scenario
           pos, buf,           \* values read so far; current block
           active, ind,        \* list of active branch numbers; index into it
           st,                 \* per branch [filled, nf]
           out, phase, empty,
-          runs                \* number of the current run of this Split object
-vars == <<brs, N, bs, pos, buf, active, ind, st, out, phase, empty, runs>>
+          runs,               \* number of the current run of this Split object
+          cut,                \* where run 1 was abandoned / suspended: [n = outputs delivered, pos, ph]
+          susp,               \* <<context of the suspended run 1>> while run 2 executes, else <<>>
+          out2                \* output of the run that was executed while run 1 was suspended
+scen == <<brs, N, bs, mode>>
+vars == <<brs, N, bs, mode, pos, buf, active, ind, st, out, phase, empty, runs, cut, susp, out2>>
 
-Init == /\ brs \in Seqs(MaxBr) /\ N \in 0..MaxN /\ bs \in BufSizes
-        /\ pos = 0 /\ buf = <<>> /\ active = [i \in 1..Len(brs) |-> i] /\ ind = 1
-        /\ st = [i \in 1..Len(brs) |-> [filled |-> <<>>, nf |-> 0]]
-        /\ out = <<>> /\ phase = (IF brs = <<>> THEN "identity" ELSE "read") /\ empty = TRUE
-        /\ runs = 1
+NoCut == [n |-> -1, pos |-> -1, ph |-> "none"]
+AllBranches == [i \in 1..Len(brs) |-> i]
+InitSt == [i \in 1..Len(brs) |-> [filled |-> <<>>, nf |-> 0]]
+StartPhase == IF brs = <<>> THEN "identity" ELSE "read"
+Init == /\ \E sc \in Scenarios(0) : brs = sc.brs /\ N = sc.N /\ bs = sc.bs /\ mode = sc.mode
+        /\ pos = 0 /\ buf = <<>> /\ active = AllBranches /\ ind = 1
+        /\ st = InitSt
+        /\ out = <<>> /\ phase = StartPhase /\ empty = TRUE
+        /\ runs = 1 /\ cut = NoCut /\ susp = <<>> /\ out2 = <<>>
 
 RemoveAt(s, i) == [j \in 1..(Len(s) - 1) |-> IF j < i THEN s[j] ELSE s[j + 1]]
+Ctl == UNCHANGED <<runs, cut, susp, out2>>
 
 Identity == /\ phase = "identity"
             /\ IF pos < N THEN /\ out' = Append(out, Tag(0, "id", <<pos>>)) /\ pos' = pos + 1 /\ UNCHANGED phase
                ELSE /\ phase' = "done" /\ UNCHANGED <<out, pos>>
-            /\ UNCHANGED <<brs, N, bs, buf, active, ind, st, empty, runs>>
+            /\ UNCHANGED <<scen, buf, active, ind, st, empty>> /\ Ctl
 
 ReadBlock == /\ phase = "read"
              /\ LET k == IF bs = None THEN N - pos ELSE Min(bs, N - pos) IN
                 IF k = 0 THEN /\ phase' = "final" /\ UNCHANGED <<pos, buf, empty>>
                 ELSE /\ buf' = [j \in 1..k |-> pos + j - 1] /\ pos' = pos + k
                      /\ phase' = "branches" /\ empty' = FALSE
-             /\ ind' = 1 /\ UNCHANGED <<brs, N, bs, active, st, out, runs>>
+             /\ ind' = 1 /\ UNCHANGED <<scen, active, st, out>> /\ Ctl
 
-Fixed == UNCHANGED <<brs, N, bs, pos, buf, empty, runs>>
-BranchSrc == /\ Fixed /\ phase = "branches" /\ ind <= Len(active) /\ brs[active[ind]].t = "src"
-             /\ out' = out \o SrcOut(active[ind]) /\ active' = RemoveAt(active, ind)
+Fixed == UNCHANGED <<scen, pos, buf, empty>> /\ Ctl
+Cls(b) == ClassOf(brs[b])
+BranchSrc == /\ Fixed /\ phase = "branches" /\ ind <= Len(active) /\ Cls(active[ind]) = "src"
+             /\ out' = out \o SrcOutK(active[ind], brs[active[ind]]) /\ active' = RemoveAt(active, ind)
              /\ UNCHANGED <<ind, st, phase>>
-BranchFC == /\ Fixed /\ phase = "branches" /\ ind <= Len(active) /\ brs[active[ind]].t = "fc"
+BranchFC == /\ Fixed /\ phase = "branches" /\ ind <= Len(active) /\ Cls(active[ind]) = "fc"
             /\ LET b == active[ind]  r == FillAll(brs[b].stop, st[b], buf) IN
                /\ st' = [st EXCEPT ![b] = [filled |-> r.filled, nf |-> r.nf]]
-               /\ IF r.stopped THEN /\ out' = Append(out, Tag(b, "c", r.filled))
+               /\ IF r.stopped THEN /\ out' = out \o FillResults(b, "c", brs[b], r.filled)
                                     /\ active' = RemoveAt(active, ind) /\ UNCHANGED ind
                   ELSE /\ UNCHANGED <<out, active>> /\ ind' = ind + 1
             /\ UNCHANGED phase
-BranchFR == /\ Fixed /\ phase = "branches" /\ ind <= Len(active) /\ brs[active[ind]].t = "fr"
+BranchFR == /\ Fixed /\ phase = "branches" /\ ind <= Len(active) /\ Cls(active[ind]) = "fr"
             /\ LET b == active[ind]  r == FillAll(brs[b].stop, st[b], buf) IN
                /\ st' = [st EXCEPT ![b] = [filled |-> <<>>, nf |-> r.nf]]
-               /\ out' = Append(out, Tag(b, "r", r.filled))
+               /\ out' = out \o FillResults(b, "r", brs[b], r.filled)
                /\ IF r.stopped THEN active' = RemoveAt(active, ind) /\ UNCHANGED ind
                   ELSE UNCHANGED active /\ ind' = ind + 1
             /\ UNCHANGED phase
-BranchSeq == /\ Fixed /\ phase = "branches" /\ ind <= Len(active) /\ brs[active[ind]].t \in {"map", "filt", "seq"}
-             /\ LET b == active[ind] IN out' = out \o SeqRun(b, brs[b], buf)
+BranchSeq == /\ Fixed /\ phase = "branches" /\ ind <= Len(active) /\ Cls(active[ind]) = "run"
+             /\ LET b == active[ind] IN out' = out \o RunResults(b, brs[b], buf)
              /\ ind' = ind + 1 /\ UNCHANGED <<active, st, phase>>
 BlockDone == /\ Fixed /\ phase = "branches" /\ ind > Len(active)
              /\ phase' = "read" /\ UNCHANGED <<active, ind, st, out>>
@@ -98,63 +173,88 @@ RECURSIVE FinalOut(_)
 FinalOut(as) ==
   IF as = <<>> THEN <<>>
   ELSE LET b == Head(as) kind == brs[b] IN
-     (CASE kind.t = "src" -> SrcOut(b)                      \* only reachable when the flow was empty
-        [] kind.t = "fc" -> <<Tag(b, "c", st[b].filled)>>
-        [] kind.t = "fr" -> IF empty THEN <<Tag(b, "r", <<>>)>> ELSE <<>>
-        [] OTHER -> IF empty THEN SeqRun(b, kind, <<>>) ELSE <<>>) \o FinalOut(Tail(as))
+     (CASE Cls(b) = "src" -> SrcOutK(b, kind)               \* only reachable when the flow was empty
+        [] Cls(b) = "fc" -> FillResults(b, "c", kind, st[b].filled)
+        [] Cls(b) = "fr" -> IF empty THEN FillResults(b, "r", kind, <<>>) ELSE <<>>
+        [] OTHER -> IF empty THEN RunResults(b, kind, <<>>) ELSE <<>>) \o FinalOut(Tail(as))
 Final == /\ phase = "final" /\ out' = out \o FinalOut(active) /\ phase' = "done"
-         /\ UNCHANGED <<brs, N, bs, pos, buf, active, ind, st, empty, runs>>
+         /\ UNCHANGED <<scen, pos, buf, active, ind, st, empty>> /\ Ctl
 
 (***************************************************************************)
 (* The active list is a per-run copy (`self._seqs[:]`): dropping a Source  *)
 (* or a stopped fill branch holds for the current run only.  Rerun starts  *)
 (* the same Split object again on the same flow, with the (harness)        *)
-(* elements reset: every branch is active again.                           *)
+(* elements reset: every branch is active again.  Abort does the same from *)
+(* the middle of a run.  Suspend starts a second run while the generator   *)
+(* of the first one is still alive; Resume continues the first one.        *)
 (***************************************************************************)
-Rerun == /\ phase = "done" /\ runs < MaxRuns
-         /\ runs' = runs + 1 /\ pos' = 0 /\ buf' = <<>> /\ ind' = 1
-         /\ active' = [i \in 1..Len(brs) |-> i]
-         /\ st' = [i \in 1..Len(brs) |-> [filled |-> <<>>, nf |-> 0]]
-         /\ out' = <<>> /\ phase' = (IF brs = <<>> THEN "identity" ELSE "read") /\ empty' = TRUE
-         /\ UNCHANGED <<brs, N, bs>>
+FreshRun == /\ pos' = 0 /\ buf' = <<>> /\ ind' = 1 /\ active' = AllBranches
+            /\ out' = <<>> /\ phase' = StartPhase /\ empty' = TRUE
+Rerun == /\ mode = "rerun" /\ phase = "done" /\ runs < MaxRuns
+         /\ runs' = runs + 1 /\ FreshRun /\ st' = InitSt
+         /\ UNCHANGED <<scen, cut, susp, out2>>
+Abort == /\ mode = "abort" /\ runs = 1 /\ phase # "done"
+         /\ cut' = [n |-> Len(out), pos |-> pos, ph |-> phase]
+         /\ runs' = 2 /\ FreshRun /\ st' = InitSt
+         /\ UNCHANGED <<scen, susp, out2>>
+Suspend == /\ mode = "inter" /\ runs = 1 /\ phase # "done" /\ susp = <<>>
+           /\ susp' = <<[pos |-> pos, buf |-> buf, active |-> active, ind |-> ind, out |-> out,
+                         phase |-> phase, empty |-> empty]>>
+           /\ cut' = [n |-> Len(out), pos |-> pos, ph |-> phase]
+           /\ runs' = 2 /\ FreshRun /\ UNCHANGED <<scen, st, out2>>
+Resume == /\ mode = "inter" /\ runs = 2 /\ phase = "done" /\ susp # <<>>
+          /\ out2' = out /\ runs' = 3 /\ susp' = <<>>
+          /\ pos' = susp[1].pos /\ buf' = susp[1].buf /\ active' = susp[1].active /\ ind' = susp[1].ind
+          /\ out' = susp[1].out /\ phase' = susp[1].phase /\ empty' = susp[1].empty
+          /\ UNCHANGED <<scen, st, cut>>
 
-Next == Identity \/ ReadBlock \/ BranchSrc \/ BranchFC \/ BranchFR \/ BranchSeq \/ BlockDone \/ Final \/ Rerun
+Next == Identity \/ ReadBlock \/ BranchSrc \/ BranchFC \/ BranchFR \/ BranchSeq \/ BlockDone \/ Final
+        \/ Rerun \/ Abort \/ Suspend \/ Resume
 Spec == Init /\ [][Next]_vars
 Done == phase = "done"
+\* the scenario is over
+Complete == /\ Done
+            /\ (mode = "rerun" => runs = MaxRuns)
+            /\ (mode = "abort" => runs = 2)
+            /\ (mode = "inter" => runs = 3)
 
 (***************************************************************************)
 (* Properties.                                                             *)
 (***************************************************************************)
 Expected == SplitSem(brs, bs, Iota(N))
 IsPrefix(a, b) == Len(a) <= Len(b) /\ a = SubSeq(b, 1, Len(a))
+\* every run of the object, also the one after an abandoned run and both interleaved ones
 OpEqDen == Done => out = Expected
+InterBoth == (mode = "inter" /\ runs = 3) => out2 = Expected
 OutIsPrefix == IsPrefix(out, Expected)
 BufBound == bs # None => Len(buf) <= bs
 \* a Source still active in the final pass implies the flow was empty (the `assert` of the code)
-SrcOnlyOnEmpty == phase = "final" => \A i \in 1..Len(active) : brs[active[i]].t = "src" => empty
+SrcOnlyOnEmpty == phase = "final" => \A i \in 1..Len(active) : Cls(active[i]) = "src" => empty
 \* results of fill/compute and per-value branches do not depend on bufsize
 BufsizeIndependent ==
-  Done => \A b \in 1..Len(brs) : brs[b].t \in {"fc", "map", "filt"} =>
-             Proj(out, b) = Proj(SplitSem(brs, None, Iota(N)), b)
+  Done => \A b \in 1..Len(brs) : (Cls(b) = "fc" \/ brs[b].t \in {"map", "filt"}) =>
+             ProjO(out, b) = ProjO(SplitSem(brs, None, Iota(N)), b)
 EmptySplitIdentity == (Done /\ brs = <<>>) => out = [j \in 1..N |-> Tag(0, "id", <<j - 1>>)]
 RECURSIVE OnceEach(_, _)
 OnceEach(bb, j) == IF j > Len(bb) THEN <<>>
-  ELSE (CASE bb[j].t = "src" -> SrcOut(j) [] bb[j].t = "fc" -> <<Tag(j, "c", <<>>)>>
-          [] bb[j].t = "fr" -> <<Tag(j, "r", <<>>)>> [] OTHER -> SeqRun(j, bb[j], <<>>)) \o OnceEach(bb, j + 1)
+  ELSE (CASE ClassOf(bb[j]) = "src" -> SrcOutK(j, bb[j]) [] ClassOf(bb[j]) = "fc" -> FillResults(j, "c", bb[j], <<>>)
+          [] ClassOf(bb[j]) = "fr" -> FillResults(j, "r", bb[j], <<>>) [] OTHER -> RunResults(j, bb[j], <<>>)) \o OnceEach(bb, j + 1)
 EmptyFlowEachOnce == (Done /\ N = 0 /\ brs # <<>>) => out = OnceEach(brs, 1)
 \* every fill/compute branch computes exactly once; every Source is called exactly once
-RECURSIVE CountTag(_, _, _)
-CountTag(o, b, k) == IF o = <<>> THEN 0 ELSE (IF Head(o).b = b /\ Head(o).k = k THEN 1 ELSE 0) + CountTag(Tail(o), b, k)
-OnceOnly == Done => \A b \in 1..Len(brs) :
-              /\ brs[b].t = "fc" => CountTag(out, b, "c") = 1
-              /\ brs[b].t = "src" => CountTag(out, b, "s") = 2
+NRes1(kd) == IF kd.t = "src" THEN (IF kd.form = "fct" THEN 1 ELSE kd.m) ELSE IF kd.m = None THEN 1 ELSE kd.m
+RECURSIVE NResSub(_, _)
+NResSub(subs, j) == IF j > Len(subs) THEN 0 ELSE NRes1(subs[j]) + NResSub(subs, j + 1)
+NRes(kd) == IF kd.t = "nest" THEN NResSub(kd.sub, 1) ELSE NRes1(kd)
+OnceOnly == Done => \A b \in 1..Len(brs) : Cls(b) \in {"fc", "src"} => Len(ProjO(out, b)) = NRes(brs[b])
 \* every value read is accounted for by a fill/request branch exactly once until it stops
 RECURSIVE Cat(_)
 Cat(ss) == IF ss = <<>> THEN <<>> ELSE Head(ss).p \o Cat(Tail(ss))
-FRAccount == Done => \A b \in 1..Len(brs) : brs[b].t = "fr" =>
-               Cat(Proj(out, b)) = (IF brs[b].stop = None THEN Iota(N) ELSE Iota(Min(N, brs[b].stop)))
+FRAccount == Done => \A b \in 1..Len(brs) : (brs[b].t = "fr" /\ brs[b].m = None) =>
+               Cat(Proj(out, b)) = PreSeq(brs[b], IF brs[b].stop = None THEN Iota(N) ELSE Iota(Min(N, brs[b].stop)))
 
 \* every run of the same object starts with all branches active
-AllActiveAtStart == (phase \in {"read", "identity"} /\ pos = 0) => active = [i \in 1..Len(brs) |-> i]
-Emitted == (Done /\ runs = MaxRuns) => PrintT(ToJson([brs |-> brs, N |-> N, bs |-> bs, out |-> out]))
+AllActiveAtStart == (phase \in {"read", "identity"} /\ pos = 0) => active = AllBranches
+\* two runs are interleaved only over stateless branches (well-formedness of the scenario families)
+InterStateless == mode = "inter" => \A b \in 1..Len(brs) : StatelessKind(brs[b])
+Emitted == Complete => PrintT(ToJson([brs |-> brs, N |-> N, bs |-> bs, out |-> out, mode |-> mode, cut |-> cut]))
 =============================================================================
